@@ -6,12 +6,14 @@
 #   2 inconclusive (build failure, watchdog, harness error) - never a violation.
 set -u
 ORIG_PWD="$(pwd)"
-cd "$(dirname "$0")/harness" || exit 2
+ROOT="$(cd "$(dirname "$0")" && pwd)"
+export VERIF_ROOT="$ROOT"
+cd "$ROOT/harness" || exit 2
 export CARGO_NET_OFFLINE=true
 ID="${1:-}"; MODE="${2:-quick}"; ARG="${3:-}"
 [ -n "$ID" ] || { echo "usage: run.sh <ID> quick|thorough|replay [arg]" >&2; exit 2; }
-mkdir -p /verif/replays /verif/evidence
-LOG=$(mktemp /verif/harness/target/build.XXXXXX.log 2>/dev/null || mktemp)
+mkdir -p $ROOT/replays $ROOT/evidence
+LOG=$(mktemp $ROOT/harness/target/build.XXXXXX.log 2>/dev/null || mktemp)
 if ! cargo build --release --offline >"$LOG" 2>&1; then
   echo "INCONCLUSIVE property=$ID harness or /repo does not build:" >&2
   grep -E "^error" -A8 "$LOG" | head -60 >&2
@@ -20,15 +22,15 @@ if ! cargo build --release --offline >"$LOG" 2>&1; then
 fi
 rm -f "$LOG"
 BIN=./target/release/verif
-rm -f /verif/replays/emergency.json
+rm -f $ROOT/replays/emergency.json
 case "$MODE" in
   quick|thorough)
     frc=0
     export VERIF_FUZZ_SUMMARY=""
-    if [ "$MODE" = thorough ] && [ -x /verif/fuzz/run_fuzz.sh ] && [ -z "$ARG" ] && [ "${VERIF_NO_FUZZ:-0}" != 1 ]; then
+    if [ "$MODE" = thorough ] && [ -x $ROOT/fuzz/run_fuzz.sh ] && [ -z "$ARG" ] && [ "${VERIF_NO_FUZZ:-0}" != 1 ]; then
       # coverage-guided campaigns first (same check functions behind libFuzzer targets)
-      export VERIF_FUZZ_SUMMARY="/verif/fuzz/campaign_$ID.txt"
-      /verif/fuzz/run_fuzz.sh "$ID" | tee "$VERIF_FUZZ_SUMMARY"
+      export VERIF_FUZZ_SUMMARY="$ROOT/fuzz/campaign_$ID.txt"
+      $ROOT/fuzz/run_fuzz.sh "$ID" | tee "$VERIF_FUZZ_SUMMARY"
       frc=${PIPESTATUS[0]}
       [ $frc -eq 1 ] && exit 1
     fi
@@ -46,8 +48,8 @@ esac
 if [ $rc -eq 77 ] || [ $rc -eq 78 ] || [ $rc -eq 79 ]; then
   # the allocator guard (77), the SIGABRT handler (78) or the SIGSEGV/SIGBUS handler (79) stopped the
   # process on the current case
-  dst="/verif/replays/${ID}_emergency_$$.json"
-  mv /verif/replays/emergency.json "$dst" 2>/dev/null
+  dst="$ROOT/replays/${ID}_emergency_$$.json"
+  mv $ROOT/replays/emergency.json "$dst" 2>/dev/null
   echo "process stopped by the allocation / abort / memory-fault guard (code $rc)"
   echo "VIOLATION property=$ID replay=$dst"
   exit 1
